@@ -426,3 +426,27 @@ def install(E):
         ensures=common_ensures, frame=memo_frame, may_write=memo_may_write,
         touches=TOUCH, owner='C01', assumed=True,
         note='body relies on compute_SCCs (bounded, C12) and TB4; bounded stand-in only'))
+
+
+def install_ctls(E):
+    """CTLS/model_checking.py: the fresh-label helper (C03/C19)"""
+    from .contracts_kripke import wfK as _wfK, Lab as _Lab
+
+    def ens(c):
+        s = X('s')
+        return [('not_a_label_of_the_structure',
+                 z3.ForAll([s], z3.Implies(V(c.h0, c.kripke.t)[s], z3.Not(_Lab(c.h0, c.kripke.t, s)[c.res.t]))))]
+
+    def l1(lc):
+        c, h = lc.c, lc.h
+        s, a = X('s'), X('a')
+        A = h.set_of(lc.env['atoms'].t)
+        return [('atoms_are_all_labels', z3.ForAll([a], A[a] == z3.Exists([s], z3.And(V(c.h0, c.kripke.t)[s], _Lab(c.h0, c.kripke.t, s)[a])))),
+                ('alloc', h.alloc >= lc.h_entry.alloc)] + frame(c.h0, h, c.h0.alloc)
+
+    E.register(Contract(
+        '_get_a_new_atomic_proposition_for', 'ctls', [('kripke', 'kripke'), ('formula', 'F')], ret='H',
+        requires=lambda c: [('kripke_wf', _wfK(c.h0, c.kripke.t))], ensures=ens,
+        loops={1: l1}, loop_touches={1: set()}, touches={'sets'}, hints={'format_is_H': True}, owner='C03',
+        note='termination of the renaming loop is not claimed; freshness w.r.t. the atoms of the FORMULA is not ensured by the code (KF-C19-2)'),
+        'CTLS/model_checking.py')
